@@ -178,6 +178,13 @@ func decryptImpl(src io.Reader, armored bool, ids []age.Identity) (string, []byt
 	return lst(":ok", hx(out), oc, consulted), out, oc
 }
 
+func readerFor(file []byte, armored bool) io.Reader {
+	if armored {
+		return armor.NewReader(bytes.NewReader(file))
+	}
+	return bytes.NewReader(file)
+}
+
 // decryptModel projects the model's answer the same way.
 func (c *Ctx) decryptModel(file []byte, armored bool, isx []string) string {
 	if armored {
